@@ -29,10 +29,10 @@ import (
 type stNode interface{ render() string }
 
 type (
-	stLit     string
-	stHole    struct{ Name string }
-	stCat     []stNode
-	stAlt     struct {
+	stLit  string
+	stHole struct{ Name string }
+	stCat  []stNode
+	stAlt  struct {
 		Cond       string
 		Then, Else stNode
 	}
@@ -242,7 +242,7 @@ func stNormalize(n stNode) stNode { return stJoinNodes(stFlatten(n)) }
 // ---------- evaluation ----------
 
 const (
-	stMaxDepth = 3
+	stMaxDepth = 6
 	stMaxPaths = 128
 )
 
@@ -602,44 +602,10 @@ func (fr *stFrame) evalCall(c *ssa.Call) stNode {
 	name := CalleeName(c)
 	args := c.Call.Args
 	switch name {
+	case "(*strings.Builder).String":
+		return fr.builder(c)
 	case "fmt.Sprintf":
-		format, ok := constString(args[0])
-		if !ok {
-			return stUnknown{"fmt.Sprintf with a non-constant format"}
-		}
-		elems, ok := stLitElems(args[1])
-		if !ok {
-			return stUnknown{"fmt.Sprintf with a non-literal argument list"}
-		}
-		var out stCat
-		ai := 0
-		for i := 0; i < len(format); i++ {
-			ch := format[i]
-			if ch != '%' {
-				out = append(out, stLit(string(ch)))
-				continue
-			}
-			i++
-			if i >= len(format) {
-				return stUnknown{"fmt.Sprintf format ends in %"}
-			}
-			switch format[i] {
-			case '%':
-				out = append(out, stLit("%"))
-			case 's', 'v', 'd':
-				if ai >= len(elems) {
-					return stUnknown{"fmt.Sprintf: missing argument"}
-				}
-				out = append(out, fr.fmtArg(elems[ai], format[i]))
-				ai++
-			default:
-				return stUnknown{"fmt.Sprintf verb %" + string(format[i])}
-			}
-		}
-		if ai != len(elems) {
-			return stUnknown{"fmt.Sprintf: extra arguments"}
-		}
-		return out
+		return fr.sprintf(args[0], args[1])
 	case "strings.Join":
 		sep, ok := constString(args[1])
 		if !ok {
@@ -677,6 +643,109 @@ func (fr *stFrame) evalCall(c *ssa.Call) stNode {
 	}
 	// method calls and foreign functions stay named holes
 	return stHole{Name: fr.sym(c)}
+}
+
+// sprintf evaluates a Sprintf-style (constant format, literal operand list).
+func (fr *stFrame) sprintf(formatV, listV ssa.Value) stNode {
+	format, ok := constString(formatV)
+	if !ok {
+		return stUnknown{"fmt.Sprintf with a non-constant format"}
+	}
+	elems, ok := stLitElems(listV)
+	if !ok {
+		return stUnknown{"fmt.Sprintf with a non-literal argument list"}
+	}
+	var out stCat
+	ai := 0
+	for i := 0; i < len(format); i++ {
+		ch := format[i]
+		if ch != '%' {
+			out = append(out, stLit(string(ch)))
+			continue
+		}
+		i++
+		if i >= len(format) {
+			return stUnknown{"fmt.Sprintf format ends in %"}
+		}
+		switch format[i] {
+		case '%':
+			out = append(out, stLit("%"))
+		case 's', 'v', 'd':
+			if ai >= len(elems) {
+				return stUnknown{"fmt.Sprintf: missing argument"}
+			}
+			out = append(out, fr.fmtArg(elems[ai], format[i]))
+			ai++
+		default:
+			return stUnknown{"fmt.Sprintf verb %" + string(format[i])}
+		}
+	}
+	if ai != len(elems) {
+		return stUnknown{"fmt.Sprintf: extra arguments"}
+	}
+	return out
+}
+
+// builder evaluates b.String() of a local strings.Builder: the WriteString /
+// WriteByte / WriteRune / fmt.Fprintf(&b, …) calls executed on the evaluated
+// path, in order.
+func (fr *stFrame) builder(c *ssa.Call) stNode {
+	b, ok := c.Call.Args[0].(*ssa.Alloc)
+	if !ok {
+		return stHole{Name: fr.sym(c)}
+	}
+	// blocks of the path, entry first
+	var blocks []*ssa.BasicBlock
+	for x := c.Block(); x != nil; {
+		blocks = append([]*ssa.BasicBlock{x}, blocks...)
+		p, ok := fr.preds[x]
+		if !ok {
+			break
+		}
+		x = p
+		if len(blocks) > 1000 {
+			return stUnknown{"path too long"}
+		}
+	}
+	var out stCat
+	for _, blk := range blocks {
+		for _, in := range blk.Instrs {
+			if in == ssa.Instruction(c) {
+				return out
+			}
+			call, ok := in.(*ssa.Call)
+			if !ok {
+				continue
+			}
+			name := CalleeName(call)
+			args := call.Call.Args
+			onB := len(args) > 0 && args[0] == ssa.Value(b)
+			switch {
+			case onB && name == "(*strings.Builder).WriteString":
+				out = append(out, fr.eval(args[1]))
+			case onB && (name == "(*strings.Builder).WriteByte" || name == "(*strings.Builder).WriteRune"):
+				k, isConst := constInt(args[1])
+				if !isConst {
+					return stUnknown{"strings.Builder." + name + " of a non-constant"}
+				}
+				out = append(out, stLit(string(rune(k))))
+			case onB && (name == "(*strings.Builder).Grow" || name == "(*strings.Builder).Len"):
+			case onB:
+				return stUnknown{"strings.Builder used by " + name}
+			case name == "fmt.Fprintf" && len(args) == 3:
+				if mi, ok := args[0].(*ssa.MakeInterface); ok && mi.X == ssa.Value(b) {
+					out = append(out, fr.sprintf(args[1], args[2]))
+				}
+			case name == "fmt.Fprint" || name == "fmt.Fprintln" || name == "io.WriteString":
+				for _, a := range args {
+					if mi, ok := a.(*ssa.MakeInterface); ok && mi.X == ssa.Value(b) {
+						return stUnknown{"strings.Builder written by " + name}
+					}
+				}
+			}
+		}
+	}
+	return stUnknown{"strings.Builder.String() not on the evaluated path"}
 }
 
 // fmtArg renders one Sprintf operand under %s/%v/%d.
